@@ -954,6 +954,7 @@ def specs(draw, gate: Gate | None = None, max_schemas: int = 5, max_ops: int = 4
             if o in multi and "multi_content_with_params" in g.exclude:
                 continue  # C04-F01: multi-content operations drop query parameters
             o.setdefault("parameters", []).append({"$ref": "#/components/parameters/StateFilter"})
+    separate_param_enum_collisions(all_ops, (spec.get("components") or {}).get("parameters") or {}, g)
     if g.flag(draw, "servers", 1, 4):
         spec["servers"] = [{"url": "https://api.example.com/v1"}]
     return spec
@@ -973,6 +974,37 @@ def _inline_response_codes(op: dict) -> set[str]:
             if isinstance(sch, dict) and _promotable(sch):
                 out.add(str(code))
     return out
+
+
+def _inline_enum_param_names(op: dict, comp_params: dict) -> set[str]:
+    out = set()
+    for p_ in op.get("parameters", []) or []:
+        if isinstance(p_, dict) and "$ref" in p_:
+            p_ = comp_params.get(p_["$ref"].rsplit("/", 1)[1], {})
+        sch = (p_ or {}).get("schema") or {}
+        if isinstance(sch, dict) and ("enum" in sch or (sch.get("type") == "array" and isinstance(sch.get("items"), dict) and "enum" in sch["items"])):
+            out.add(str(p_.get("name")))
+    return out
+
+
+def separate_param_enum_collisions(all_ops: list, comp_params: dict, g: Gate) -> None:
+    """Operations whose operationIds derive to one class name and that both have a parameter of the same name with an inline enum
+    (or an array of one): the synthesised <Op>Param<Name>[Item] enum names collide and the endpoint module imports a name that
+    does not exist (C01-F16, same root as C04-F05).  With the trigger excluded the later operationId is made distinct."""
+    seen: dict[tuple[str, str], int] = {}
+    for i, (_p, _m, op) in enumerate(all_ops):
+        oid = op.get("operationId")
+        if not oid:
+            continue
+        names = _inline_enum_param_names(op, comp_params)
+        if any((_cls(oid), n) in seen for n in names):
+            if "colliding_opid_inline_param_enum" in g.exclude:
+                g.excluded["colliding_opid_inline_param_enum"] += 1
+                op["operationId"] = f"{oid}Y{i}"
+            else:
+                g.used["colliding_opid_inline_param_enum"] += 1
+        for n in names:
+            seen.setdefault((_cls(op["operationId"]), n), i)
 
 
 def _separate_promo_collisions(all_ops: list, g: Gate) -> None:
